@@ -47,14 +47,20 @@ RULE = ("one transformation per case on scales of 0..6 brackets given by their a
         "first threshold not 0, a rate 1, rates above 1), multiply_thresholds and multiply_rates with factors "
         "2, 1/2, 3/2, 3, 1/4, 5/4, 1, 0, negative and non-dyadic ones, decimals None/0/1/2/-1, inplace or not, "
         "new_name or not, scale_tax_scales, to_average, to_marginal of directly built average scales (with and "
-        "without an infinite last threshold), to_average().to_marginal(), copy; thresholds multiples of 1/4 (0 "
+        "without an infinite last threshold), to_average().to_marginal(), copy; PROGRAMS on one scale object (2..5 stages: multiply_thresholds / multiply_rates in place or "
+        "not, copy, scale_tax_scales, add_bracket, add_tax_scale, and multiply_thresholds with decimals 0 / -1 on clustered "
+        "thresholds so that thresholds coincide), the object being probed before the first and after every step with calc, "
+        "inverse + round trip, to_average, to_average().to_marginal() and probe.add_tax_scale(object), every law checked "
+        "at every stage against the bracket lists read back from the object; thresholds multiples of 1/4 (0 "
         "included in most scales, a few negative ones), rates multiples of 1/16; bases on every threshold of "
         "every scale involved, between them, below the first and above the last; a case is non-trivial when a "
         "non-empty scale is transformed and amounts are computed; distinct as (operation, scales, options, bases)")
 TRUSTED = ["numpy (tile/outer/minimum/maximum/dot/around) and bisect are modelled by list functions in coq/model/Scale.v, covered by the correspondence only",
            "the implementation's floats are handed to the Coq side as hints; corr/Corr_C09.v renders a model number as the hint when it is within 1e-9 (relative to max(1,|model value|)) of it, so the tolerance comparison is evaluated by Coq",
            "calc() of the implementation shifts thresholds by the factor 1 + 2^-52; the correspondence runs the model with that eps, the theorems are about eps = 0"]
-ASSUMPTIONS = ["binary64 rounding is not modelled: computed rates and amounts are compared within 1e-9 relative to max(1, |value|); thresholds that are copied, and sums / products that the harness checked to be representable, exactly",
+ASSUMPTIONS = ["OPEN finding F34 (known_findings.json, coinciding-thresholds): on a scale with two equal thresholds (produced by multiply_thresholds with decimals) add_tax_scale, inverse and to_average().to_marginal() break their laws on the unchanged tree; the oracle claims the laws there too, the failures are reported as KNOWN-FINDING when model and implementation agree, and are checked last so that they never hide another failure of the same case; the theorems assume strictly increasing thresholds",
+               "programs keep every product exact in binary64 (dyadic factors, decimals 0 / -1 only) and thresholds positive after the first one",
+               "binary64 rounding is not modelled: computed rates and amounts are compared within 1e-9 relative to max(1, |value|); thresholds that are copied, and sums / products that the harness checked to be representable, exactly",
                "claimed scope of the oracle: scales with non-negative thresholds (property quantifier); inverse for first threshold 0, all rates < 1, gross amounts >= 0; threshold scaling for factors >= 0 without decimals (a negative factor reverses the thresholds: compared with the model, not claimed); the average/marginal round trip for non-empty scales (an empty scale has no last rate: to_marginal raises)",
                "inputs are small dyadic rationals (|threshold| <= 1100 multiples of 1/4, rates multiples of 1/16) so that additions and the products of inverse() are exact in binary64"]
 
